@@ -17,6 +17,7 @@ func configs(quick bool) []Cfg {
 	signed := []string{"propose:max", "dkgfast", "sig", "req", "inde", "block", "jumpexec"}
 	again := []string{"propose:min", "propose:max", "force:min", "probe", "dkgfast", "block", "jumpexec", "expire"}
 	staleSig := []string{"propose:max", "dkgfast", "stale", "sig", "block", "jumpexec"}
+	frac := []string{"propose:frac", "force:frac", "probe", "dkgfast", "sig", "block", "jumpfrac"}
 	if quick {
 		return []Cfg{
 			// A: the whole life cycle of one proposal at round granularity, all timings around the exec time
@@ -45,6 +46,9 @@ func configs(quick bool) []Cfg {
 			// signed while a second transition waits for its own hand-over signature
 			{Name: "stale-handover-signing", CurN: 2, CurT: 1, IncN: 2, IncT: 1, SigningPeriod: 30, MaxSigningAttempt: 2, CreationPeriod: 8,
 				InitDE: 4, MaxProposals: 2, MaxReq: 0, MaxTransitionSec: 15, FeePerSigner: 7, Events: staleSig, Depth: 11},
+			// I: exec times with a sub-second part and block times in the same second just before / at them
+			{Name: "sub-second-exec-time", CurN: 2, CurT: 1, IncN: 2, IncT: 1, Spare: true, SigningPeriod: 3, MaxSigningAttempt: 1, CreationPeriod: 8,
+				InitDE: 3, MaxProposals: 1, MaxReq: 0, MaxTransitionSec: 20, FeePerSigner: 7, Events: frac, Depth: 8},
 		}
 	}
 	lifeMsg := []string{"propose:max", "probe", "dkg", "dkgmsg", "spoil", "sigany", "block", "jumpexec"}
@@ -76,6 +80,8 @@ func configs(quick bool) []Cfg {
 			InitDE: 3, MaxProposals: 2, MaxReq: 0, MaxTransitionSec: 60, FeePerSigner: 7, Events: againT, Depth: 11},
 		{Name: "stale-handover-signing", CurN: 2, CurT: 2, IncN: 2, IncT: 1, SigningPeriod: 6, MaxSigningAttempt: 3, CreationPeriod: 8,
 			InitDE: 6, MaxProposals: 2, MaxReq: 0, MaxTransitionSec: 15, FeePerSigner: 7, Events: append(append([]string{}, staleSig...), "sigany", "probe", "jump"), Depth: 11},
+		{Name: "sub-second-exec-time", CurN: 2, CurT: 2, IncN: 2, IncT: 1, Spare: true, SigningPeriod: 3, MaxSigningAttempt: 1, CreationPeriod: 8,
+			InitDE: 3, MaxProposals: 2, MaxReq: 1, MaxTransitionSec: 20, FeePerSigner: 7, Events: append(append([]string{}, frac...), "req", "jump"), Depth: 8},
 	}
 }
 
